@@ -1,11 +1,15 @@
 #!/bin/bash
-# usage: tools/try_mutant.sh <patch.diff> <property> [tier]   — applies the patch to /repo, runs the check, always reverts
+# usage: tools/try_mutant.sh <patch.diff> <property> [tier]
+# runs the check against a scratch worktree of /repo with the patch applied (OKDMR_REPO points the check at it), so /repo itself
+# stays untouched and several mutants can be tried while other work goes on; equivalent to
+#   git -C /repo apply <patch>; ./check <id>; git -C /repo checkout -- .
 set -u
-P=$1; ID=$2; TIER=${3:-quick}
+P=$(readlink -f $1); ID=$2; TIER=${3:-quick}; WT=/tmp/try_wt_$$
+git -C /repo worktree add -q --detach $WT HEAD || exit 3
+git -C $WT apply "$P" || { echo "patch does not apply"; git -C /repo worktree remove --force $WT; exit 3; }
 cd /verif
-git -C /repo apply "$P" || { echo "patch does not apply"; exit 3; }
-./check $ID --tier $TIER --no-selfcheck > /tmp/try_mutant.$$.log 2>&1; rc=$?
-git -C /repo checkout -- . 
+OKDMR_REPO=$WT ./check $ID --tier $TIER --no-selfcheck --no-evidence > /tmp/try_mutant.$$.log 2>&1; rc=$?
+git -C /repo worktree remove --force $WT
 grep -E "^(VIOLATION|INCONCLUSIVE|  violated|C[0-9]+ )" /tmp/try_mutant.$$.log | cut -c1-260 | head -${LINES_MAX:-8}
 rm -f /tmp/try_mutant.$$.log
 echo "exit=$rc"
